@@ -81,24 +81,28 @@ Definition filemap := list (text * list text).
 Fixpoint lookup_file (n : text) (fm : filemap) : option (list text) :=
   match fm with [] => None | (k, v) :: r => if text_eqb k n then Some v else lookup_file n r end.
 
-Fixpoint expand_list (rec : list stmt -> res (list stmt)) (fm : filemap) (ss : list stmt) : res (list stmt) :=
+(* chain = the include files currently being expanded; a file that is already in the chain is a
+   cycle (TranslationError since the F21 repair), an unknown file is unreadable (F20) *)
+Fixpoint expand_list (rec : list text -> list stmt -> res (list stmt)) (fm : filemap) (chain : list text)
+         (ss : list stmt) : res (list stmt) :=
   match ss with
   | [] => Ok []
   | s :: r =>
       if Tables.is_include (s_instr s) && negb (Nat.eqb (length (s_opstr s)) 0) then
-        match lookup_file (s_opstr s) fm with
-        | None => Internal E_FILE
-        | Some ls => do inner <- parse_lines ls; do inner' <- rec inner;
-                     do rest <- expand_list rec fm r; Ok (inner' ++ rest)
+        if existsb (text_eqb (s_opstr s)) chain then Diag 2
+        else match lookup_file (s_opstr s) fm with
+        | None => Diag 2
+        | Some ls => do inner <- parse_lines ls; do inner' <- rec (chain ++ [s_opstr s]) inner;
+                     do rest <- expand_list rec fm chain r; Ok (inner' ++ rest)
         end
-      else do rest <- expand_list rec fm r; Ok (s :: rest)
+      else do rest <- expand_list rec fm chain r; Ok (s :: rest)
   end.
 
-(* fuel = nesting depth; a cycle exhausts it (Python: RecursionError) *)
-Fixpoint expand (fuel : nat) (fm : filemap) (ss : list stmt) : res (list stmt) :=
+(* fuel = nesting depth; S (number of files) is always enough because a chain never repeats a name *)
+Fixpoint expand (fuel : nat) (fm : filemap) (chain : list text) (ss : list stmt) : res (list stmt) :=
   match fuel with
-  | O => expand_list (fun _ => Internal E_RECUR) fm ss
-  | S f => expand_list (expand f fm) fm ss
+  | O => expand_list (fun _ _ => OutOfFuel) fm chain ss
+  | S f => expand_list (expand f fm) fm chain ss
   end.
 
 (* ---------- symbol table ---------- *)
@@ -231,7 +235,7 @@ Fixpoint assign_addresses (ss : list stmt) (address : N) : res (list stmt) :=
   | [] => Ok []
   | s :: r =>
       let p := s_pkg s in
-      do pa <- (if v_is_none (cp_addr p) then do a <- as_internal_value (numv address); Ok (a, address)
+      do pa <- (if v_is_none (cp_addr p) then do a <- as_translation_error (numv address); Ok (a, address)
                 else match cp_addr p with VPyNone => Internal E_ATTR | a => Ok (a, v_int a) end);
       let '(av, a) := pa in
       let s' := set_pkg s {| cp_op := cp_op p; cp_addr := av; cp_post := cp_post p; cp_add := cp_add p;
@@ -255,8 +259,8 @@ Definition calc_offset (ss : list stmt) (l : value) (op : N) (r : value) : res v
   do z <- (if op =? 43 then Ok (Z.of_N address + Z.of_N av)%Z
            else if op =? 45 then Ok (Z.of_N address - Z.of_N av)%Z
            else if op =? 42 then Ok (Z.of_N address * Z.of_N av)%Z
-           else if av =? 0 then Internal E_ZERO else Ok (Z.of_N (address / av)));
-  do n <- as_internal_value (num_of_Z z (Some 4) MExtended);
+           else if av =? 0 then Diag 2 else Ok (Z.of_N (address / av)));
+  do n <- as_translation_error (num_of_Z z (Some 4) MExtended);
   Ok (VNum n).
 
 Definition operand_value (o : operand) : value :=
@@ -286,11 +290,11 @@ Definition fix_stmt (ss : list stmt) (this : N) (s : stmt) : res stmt :=
     if target <=? this then
       let len := 1 + sum_range sizeof ss (N.to_nat target) (N.to_nat (this + 1 - target)) in
       if short && (129 <? len) then Diag 2
-      else do n <- as_internal_value (num_of_Z (Z.of_N base - Z.of_N len)%Z (Some hint) MNone); Ok (with_add s (VNum n))
+      else do n <- as_translation_error (num_of_Z (Z.of_N base - Z.of_N len)%Z (Some hint) MNone); Ok (with_add s (VNum n))
     else
       let len := sum_range sizeof ss (N.to_nat (this + 1)) (N.to_nat (target - (this + 1))) in
       if short && (127 <? len) then Diag 2
-      else do n <- as_internal_value (num_of_Z (Z.of_N len) (Some hint) MNone); Ok (with_add s (VNum n))
+      else do n <- as_translation_error (num_of_Z (Z.of_N len) (Some hint) MNone); Ok (with_add s (VNum n))
   else
     let ov := operand_value (s_operand s) in
     match ov with
@@ -310,7 +314,7 @@ Definition fix_stmt (ss : list stmt) (this : N) (s : stmt) : res stmt :=
                       | _ => addr_of ss (v_int (cp_add (s_pkg s1)))
                       end);
         do start <- addr_of ss this;
-        do n <- as_internal_value (num_of_Z (Z.of_N target - Z.of_N start - Z.of_N (cp_size p))%Z (Some (s_hint s)) MNone);
+        do n <- as_translation_error (num_of_Z (Z.of_N target - Z.of_N start - Z.of_N (cp_size p))%Z (Some (s_hint s)) MNone);
         Ok (with_add s1 (VNum n))
       else Ok s1
     end.
@@ -357,7 +361,7 @@ Definition last_where (f : stmt -> bool) (ss : list stmt) : option stmt :=
 
 (* Program.translate_statements after parsing *)
 Definition translate_program (fm : filemap) (parsed : list stmt) : res (list stmt * symtab) :=
-  do ss0 <- expand 64 fm parsed;
+  do ss0 <- expand (S (length fm)) fm [] parsed;
   do tb <- save_symbols ss0 0 [];
   do ss1 <- map_res (resolve_stmt tb) ss0;
   do ss2 <- map_res translate_stmt ss1;
